@@ -43,6 +43,14 @@ pub trait ShapesRef {
     #[no_int_result]
     fn res_c(&self, x: i32) -> Result<u32, u8>;
     fn res_io(&self, x: i32) -> Result<u64, std::io::Error>;
+    /// options and results whose payloads are easy to lose: nested options, Some(0) / Some(false), by-value structs, equal Ok and Err types
+    fn opn(&self, o: Option<Option<u32>>) -> Option<Option<u32>>;
+    fn opb(&self, o: Option<bool>, z: Option<u8>) -> Option<u8>;
+    fn oppod(&self, o: Option<Pod>) -> Option<Pod>;
+    #[no_int_result]
+    fn resuu(&self, x: i64) -> Result<u64, u64>;
+    #[no_int_result]
+    fn resopt(&self, x: i32) -> Result<Option<u32>, u8>;
     /// primitive leaves that pass through unconverted: char (all planes), bool, signed bytes, 128-bit integers, floats
     fn prim_c(&self, c: char, up: bool) -> char;
     fn prim_w(&self, x: i128, y: i8) -> u128;
@@ -112,6 +120,11 @@ impl ShapesRef for Obj {
     fn rstr(&self) -> &str { log_call(vec![self.id, 14]); &self.s }
     fn res(&self, x: i32) -> Result<u64, ()> { log_call(vec![self.id, 16, x as i64]); if x < 0 { Err(()) } else { Ok(x as u64 * 2) } }
     fn res_c(&self, x: i32) -> Result<u32, u8> { log_call(vec![self.id, 18, x as i64]); if x >= 0 { Ok(x as u32) } else { Err(x.wrapping_neg() as u8) } }
+    fn opn(&self, o: Option<Option<u32>>) -> Option<Option<u32>> { log_call(vec![self.id, 35, match o { None => -2, Some(None) => -1, Some(Some(x)) => x as i64 }]); match o { None => Some(None), Some(None) => Some(Some(7)), Some(Some(x)) => if x % 2 == 0 { None } else { Some(Some(x.wrapping_add(1))) } } }
+    fn opb(&self, o: Option<bool>, z: Option<u8>) -> Option<u8> { log_call(vec![self.id, 36, o.map(|b| b as i64).unwrap_or(-1), z.map(|b| b as i64).unwrap_or(-1)]); match (o, z) { (Some(false), Some(0)) => Some(0), (Some(b), Some(v)) => Some(v.wrapping_add(b as u8)), (None, v) => v, (Some(_), None) => None } }
+    fn oppod(&self, o: Option<Pod>) -> Option<Pod> { log_call(vec![self.id, 37, o.map(|p| p.a as i64 + p.b as i64 * 3 + p.c).unwrap_or(-1)]); o.map(|p| Pod { a: p.a.wrapping_add(2), b: !p.b, c: p.c.wrapping_mul(3) }).filter(|p| p.a != 1) }
+    fn resuu(&self, x: i64) -> Result<u64, u64> { log_call(vec![self.id, 38, x]); if x % 3 == 0 { Ok(x as u64) } else { Err(x as u64) } }
+    fn resopt(&self, x: i32) -> Result<Option<u32>, u8> { log_call(vec![self.id, 39, x as i64]); match x.rem_euclid(3) { 0 => Ok(None), 1 => Ok(Some(x as u32)), _ => Err(x as u8) } }
     fn prim_c(&self, c: char, up: bool) -> char { log_call(vec![self.id, 31, c as i64, up as i64]); if up { char::from_u32(c as u32 + 1).unwrap_or('\u{10FFFF}') } else { c } }
     fn prim_w(&self, x: i128, y: i8) -> u128 { log_call(vec![self.id, 32, (x >> 64) as i64, x as i64, y as i64]); (x as u128).rotate_left(17) ^ (y as i128 as u128) }
     fn prim_f(&self, x: f32, y: f64) -> f64 { log_call(vec![self.id, 33, x.to_bits() as i64, y.to_bits() as i64]); x as f64 * 0.5 + y }
@@ -171,6 +184,11 @@ fn call_ref<T: ShapesRef>(t: &mut T, op: &[i64], scratch: &mut Scratch) -> Vec<i
         16 => vec![16, match t.res(a(1) as i32) { Ok(v) => v as i64, Err(()) => -1 }],
         18 => vec![18, match t.res_c(a(1) as i32) { Ok(v) => v as i64, Err(e) => -(e as i64) }],
         19 => vec![19, match t.res_io(a(1) as i32) { Ok(v) => v as i64, Err(e) => -(e.raw_os_error().filter(|c| *c != 0).unwrap_or(0xffff) as i64) - 1_000_000 /* errors without an OS code are documented to become 0xffff */ }],
+        35 => { let o = match a(1).rem_euclid(3) { 0 => None, 1 => Some(None), _ => Some(Some(a(2) as u32)) }; vec![35, match t.opn(o) { None => -2, Some(None) => -1, Some(Some(x)) => x as i64 }] }
+        36 => { let o = match a(1).rem_euclid(3) { 0 => None, 1 => Some(false), _ => Some(true) }; let z = if a(2) < 0 { None } else { Some(a(2) as u8) }; vec![36, t.opb(o, z).map(|v| v as i64).unwrap_or(-1)] }
+        37 => { let o = if a(1) < 0 { None } else { Some(Pod { a: a(1) as u8, b: a(2) as u32, c: a(3) }) }; match t.oppod(o) { None => vec![37, -1], Some(p) => vec![37, p.a as i64, p.b as i64, p.c] } }
+        38 => vec![38, match t.resuu(a(1)) { Ok(v) => v as i64, Err(e) => -(e as i64) - 1 }],
+        39 => vec![39, match t.resopt(a(1) as i32) { Ok(None) => -1, Ok(Some(v)) => v as i64, Err(e) => -1000 - e as i64 }],
         31 => { let c = char::from_u32((a(1) as u32) % 0x110000).unwrap_or('\u{FFFD}'); vec![31, t.prim_c(c, a(2) % 2 == 1) as i64] }
         32 => { let x = ((a(1) as i128) << 64) | (a(2) as u64 as i128); let r = t.prim_w(x, a(3) as i8); vec![32, (r >> 64) as i64, r as i64] }
         33 => { let r = t.prim_f(f32::from_bits(a(1) as u32), f64::from_bits(a(2) as u64)); vec![33, r.to_bits() as i64] }
@@ -274,7 +292,7 @@ impl Scratch { fn new() -> Self { Scratch { rgbw: (0..27u32).map(|i| i * 13 + 1)
 
 fn final_state(o: &Obj) -> Vec<i64> { vec![o.state, digest(&o.buf), digest(o.s.as_bytes()), o.cell as i64] }
 
-fn is_ref_op(op: &[i64]) -> bool { matches!(op[0], 0 | 6 | 7 | 8 | 9 | 10 | 12 | 13 | 14 | 16 | 18 | 19 | 20 | 21 | 22 | 23 | 24 | 25 | 26 | 27 | 28 | 31 | 32 | 33 | 34) }
+fn is_ref_op(op: &[i64]) -> bool { matches!(op[0], 0 | 6 | 7 | 8 | 9 | 10 | 12 | 13 | 14 | 16 | 18 | 19 | 20 | 21 | 22 | 23 | 24 | 25 | 26 | 27 | 28 | 31 | 32 | 33 | 34 | 35 | 36 | 37 | 38 | 39) }
 
 /// params: [trait: 0 ShapesRef / 1 ShapesMut ; container: 0 Box, 1 &mut, 2 & (ShapesRef only), 3 Box with a CArc context,
 ///          4 CArcSome (ShapesRef only), 5 a clone of a CArcSome that the caller keeps, with a CArc context (ShapesRef only)]
